@@ -6,10 +6,15 @@ package main
 import (
 	"testing"
 
+	"github.com/goblimey/go-ntrip/apps/rtcmlogger/config"
+
 	"verif/vsim/harness/lib"
 	"verif/vsim/hx"
 )
 
 func TestVsim(t *testing.T) {
-	hx.Main(t, &hx.Prop{ID: "C16", Run: lib.C16(start)})
+	hx.Main(t, &hx.Prop{ID: "C16", Run: lib.C16(func(cfg *config.Config) {
+		vsimReset() // a run is a process: the reporting flags start as the program declares them
+		start(cfg)
+	})})
 }
